@@ -6,7 +6,7 @@
   C17.D  no hidden state: no static with interior mutability is written on paths from Vm::run.
 """
 from cao.facts import AnchorMissing, callee_names, short, op_local, op_place, DefUse, rvalue_places
-from cao.rules import Rule, ok, bad, undecided, note
+from cao.rules import Rule, ok, bad, undecided, note, shared
 from cao import mirutil as mu
 
 EXPLANATION = (
@@ -287,7 +287,13 @@ def rule_d(F):
     return res
 
 
+def _c05_rule_a(F):
+    from rules import c05 as _c05
+    return _c05.rule_a(F)
+
+
 RULES = [
+    Rule("C17.A", shared(_c05_rule_a, "C05.A", "C17.A"), 5, "accounted memory is a running balance moved only by alloc / dealloc: clear() may not overwrite it (shared with C05.A)"),
     Rule("C17.C", rule_c, 6, "clear (or the start of run) resets every field a run can write"),
     Rule("C17.E", rule_e, 4, "what clear does to each field restores the fresh state"),
     Rule("C17.F", rule_f, 1, "the entry frame is balanced per run"),
